@@ -118,9 +118,16 @@ def confirm(binary, sc, choices, want_prop, want_sig_prefix, want_rc, tmpdir):
     return True, ""
 
 
-def run_scenarios(prop, tier, scenarios, deadline_s, runner="olc", extra_assumptions=None, rule=None, assumptions=None):
+def olc_debug_binary():
+    """assertion-enabled OLC runner (no NDEBUG): library assertions are live, an abort is a C16 violation"""
+    return build("olc_runner_dbg", ["engines/sched/olc_runner.cpp"], ["-O1", "-D" + HOOK_GUARD, "-fsanitize=address", "-fno-omit-frame-pointer"])
+
+
+def run_scenarios(prop, tier, scenarios, deadline_s, runner="olc", extra_assumptions=None, rule=None, assumptions=None,
+                  finish=True, binary=None, fatal_property=None):
     t0 = time.time()
-    binary = binary_for(scenarios[0]) if scenarios else olc_binary(True)
+    if binary is None:
+        binary = binary_for(scenarios[0]) if scenarios else olc_binary(True)
     engine_name = "sched/" + (scenarios[0].get("runner", "olc") if scenarios else "olc")
     tmpdir = tempfile.mkdtemp(prefix="verif-a-", dir=os.path.join(BUILD))
     report = Report(prop)
@@ -184,6 +191,9 @@ def run_scenarios(prop, tier, scenarios, deadline_s, runner="olc", extra_assumpt
         else:
             pr = read_progress(j["prog"])
             vprop, vsig = classify_fatal(rc, pr["what"] if pr else "")
+            if fatal_property and (rc == -6 or rc == 134):
+                # assertion-enabled runner: the library aborted
+                vprop, vsig = fatal_property, fatal_property + "/assertion-abort"
             if vprop is None or pr is None:
                 report.infra_errors.append("runner failed on %s: rc=%r %s" % (j["tag"], rc, se[-500:]))
                 continue
@@ -224,7 +234,9 @@ def run_scenarios(prop, tier, scenarios, deadline_s, runner="olc", extra_assumpt
     ]
     assumptions = assumptions + (extra_assumptions or [])
     nviol = len(report.violations)
-    write_evidence(prop, tier, "model_checking", coverage, wall, nviol, assumptions)
     log("%s %s: %d executions, %d points, %.1fs, %d violation(s), exhaustive=%s" %
         (prop, tier, agg["executions"], agg["points"], wall, nviol, exhaustive))
+    if not finish:
+        return report, coverage, assumptions
+    write_evidence(prop, tier, "model_checking", coverage, wall, nviol, assumptions)
     return report.finish()
